@@ -38,6 +38,14 @@ def gen(rng, dims=None):
     return {"header": h, "body": body}
 
 
+def build(case):
+    """the pose of a case; `extra_mask` lists (frame, person, point) cells that are masked although their confidence is not 0 (a body built from a masked array)"""
+    pose = pc.build_pose(case)
+    for f, p, n in case.get("extra_mask", []):
+        pose.body.data[f, p, n] = ma.masked
+    return pose
+
+
 def arrays(pose):
     d = pose.body.data
     return np.asarray(d.data, dtype=np.float64), np.asarray(ma.getmaskarray(d)), np.asarray(pose.body.confidence, dtype=np.float64)
@@ -68,7 +76,10 @@ def run(ctx):
     reqs, meta = [], []
     for it in range(ctx.pick(120, 1500)):
         case = gen(rng)
-        pose = pc.build_pose(case)
+        if rng.random() < 0.25:                              # a mask of its own on top of confidence == 0
+            b_ = case["body"]
+            case["extra_mask"] = [[rng.randrange(b_["frames"]), rng.randrange(b_["people"]), rng.randrange(b_["points"])] for _ in range(rng.randint(1, 3))]
+        pose = build(case)
         src = arrays(pose)
         D = case["body"]["dims"]
         sizes = [len(c["points"]) for c in case["header"]["components"]]
@@ -125,7 +136,7 @@ def run(ctx):
             bad("augment2d does not apply one common linear map of the first two coordinates", {"seed": seed, "stds": stds})
         # ---- focus
         if observed:
-            p2 = pc.build_pose(case)
+            p2 = build(case)
             try:
                 p2.focus()
                 ok = True
@@ -146,7 +157,7 @@ def run(ctx):
                     bad("focus is not a translation of the observed points", {})
         # ---- bbox
         try:
-            bb = pc.build_pose(case).bbox()
+            bb = build(case).bbox()
             bbv = arrays(bb)
         except Exception as e:
             bb = None
@@ -174,8 +185,9 @@ def run(ctx):
         ops = [{"k": "flip", "axis": rng.randrange(D)}, {"k": "bbox", "sizes": sizes}]
         if observed:
             ops.insert(1, {"k": "focus"})
-        reqs.append({"op": "body_ops", "backend": "numpy", "body": model_body(case), "ops": ops})
-        meta.append((case, ops))
+        if not case.get("extra_mask"):                      # the driver builds its body from the confidences alone
+            reqs.append({"op": "body_ops", "backend": "numpy", "body": model_body(case), "ops": ops})
+            meta.append((case, ops))
     outs = ctx.driver.run(reqs)
     for (case, ops), mo in zip(meta, outs):
         pose = pc.build_pose(case)
